@@ -366,8 +366,51 @@ func worldRelease(w *World) {
 	if w.In.Tier == "thorough" {
 		cycles *= 4
 	}
+	// somebody else tries to get into the groups of the set with a wrong key, or with other endpoint parameters, and is
+	// refused: a refused registration touches nothing that belongs to others
+	intruder := env.newClient("ix", 0)
+	intrude := func() {
+		if intruder.IsClosed() {
+			return
+		}
+		for _, s := range set {
+			if _, grouped := s.f["group"]; !grouped {
+				continue
+			}
+			f := M{}
+			for k, v := range s.f {
+				f[k] = v
+			}
+			f["proxy_name"] = "intruder-" + mstr(s.f, "proxy_name")
+			if r.Intn(2) == 0 {
+				f["group_key"] = "not-the-key"
+			} else if _, ok := f["remote_port"]; ok {
+				f["remote_port"] = 20008
+			} else {
+				f["group_key"] = "not-the-key"
+			}
+			w.Probe("release.refused_group_join")
+			if rr, got := intruder.register(f); got && mstr(rr, "error") == "" {
+				intruder.CloseProxy(mstr(f, "proxy_name"))
+				intruder.syncStrong()
+			}
+		}
+	}
+	if w.KnobBool("group_intruder", 50) {
+		if rr, err := intruder.login(""); err != nil || mstr(rr, "error") != "" {
+			w.Fail("intruder login: %v %v", err, rr)
+		}
+		if hbTimeout > 0 {
+			keepAlive(intruder, make(chan struct{}))
+		}
+	} else {
+		intruder.Peer.Closed = true
+	}
 	var g2, l2, c2 int
 	for cy := 0; cy < cycles; cy++ {
+		if cy < 3 {
+			intrude()
+		}
 		if w.KnobBool("traffic", 60) {
 			traffic()
 		}
@@ -377,6 +420,20 @@ func worldRelease(w *World) {
 		}
 		switch kind {
 		case 0: // explicit close, same session
+			if len(set) > 1 && r.Intn(2) == 0 {
+				// only one proxy of the set goes and comes back while the others (a fellow group member, say) stay
+				one := set[r.Intn(len(set))]
+				cur.CloseProxy(mstr(one.f, "proxy_name"))
+				syncCtl(cur)
+				w.Probe("release.closeproxy_single")
+				rr, got := cur.register(one.f)
+				w.Check("C10.identical-reregistration")
+				if !got || mstr(rr, "error") != "" {
+					viol("reregister", "refused-after-closeproxy-single-"+one.kind, "proxy %s (%s) was closed on its own while the rest of the set stayed; its identical registration right afterwards was refused: %v", mstr(one.f, "proxy_name"), one.kind, rr)
+					return
+				}
+				break
+			}
 			for _, s := range set {
 				cur.CloseProxy(mstr(s.f, "proxy_name"))
 			}
